@@ -43,6 +43,7 @@ def mk_spec(rng, cols=None, units=None, meta=None, nrows=None):
     if meta is None:
         meta = dict(t_ref=[None, float(rng.integers(50000, 59000)) + 0.25][int(rng.integers(0, 2))], poly_trend=int(rng.integers(1, 3)),
                     n_offsets=int(rng.integers(0, 2)))
+
     if cols is None:
         pool = ["P", "e", "omega", "M0", "s", "K", "v0", "ln_prior", "ln_likelihood"]
         if meta["poly_trend"] > 1:
@@ -65,6 +66,12 @@ def build_samples(spec):
 
     m = spec["meta"]
     tref = None if m["t_ref"] is None else Time(m["t_ref"], format="mjd", scale="tcb")
+    if tref is not None:
+        # the reference epoch is an instant: it may be handed over on any time scale (m["t_ref"] is its TCB MJD); the scale is a
+        # function of the epoch so that tables with equal epochs carry identical Time objects
+        sc = ["tcb", "tcb", "utc", "tdb", "tt"][int(m["t_ref"]) % 5]
+        if sc != "tcb":
+            tref = getattr(tref, sc)
     s = JokerSamples(t_ref=tref, poly_trend=m["poly_trend"], n_offsets=m["n_offsets"])
     arr = np.array(spec["rows"], float).reshape(len(spec["rows"]), len(spec["cols"]))
     for j, c in enumerate(spec["cols"]):
@@ -85,7 +92,10 @@ def observe_table(s):
     cols = list(s.par_names)
     units = {c: (s.tbl[c].unit.to_string() if getattr(s.tbl[c], "unit", None) is not None else "") for c in cols}
     tref = s.t_ref
-    meta = dict(t_ref=None if tref is None else float(tref.tcb.mjd), poly_trend=int(s.poly_trend), n_offsets=int(s.n_offsets))
+    tv = None if tref is None else float(tref.tcb.mjd)
+    if tv is not None and abs(tv - round(tv * 64) / 64) < 1e-8:
+        tv = round(tv * 64) / 64  # astropy's scale conversions round-trip to ~1e-11 d; epochs in this harness are multiples of 1/64 d (1e-8 d = 1 ms)
+    meta = dict(t_ref=tv, poly_trend=int(s.poly_trend), n_offsets=int(s.n_offsets))
     n = len(s)
     rows = [[float(np.asarray(getattr(s.tbl[c], "value", s.tbl[c]))[i]) for c in cols] for i in range(n)]
     return cols, units, meta, rows
